@@ -111,6 +111,18 @@ CHECKS = {
         "A call that returns normally and was given a name/symbol for an anonymous (or identically named) object counts as a declaration; intercepted from outside without source hooks.",
         "§4 C19",
     ),
+    "C11": (
+        "exhaustive enumeration of all prefix pairs and prefix x unit x exponent combinations + Hypothesis compounds/magnitudes; exact Fraction prefix values and size oracle",
+        "Exploration with two exhaustively enumerated sub-spaces (all ordered pairs of registered prefixes; every registered prefix x 30 units x n in [-4,4]): products/quotients add/subtract exponents and are the interned object, identity prefix neutral, m*(p*u) = (m*value(p))*u, (p*u)**n is p**n*u**n, roots invert powers, division by prefixed units, unprefixed() keeps the value; mixed SI/IEC within 1e-9.",
+        "value(p) = Fraction(base)**exponent for the registered prefixes.",
+        "§4 C11",
+    ),
+    "C13": (
+        "exhaustive enumeration of (prefix or none) x every registered unit x exponent +-1..3 through str() and both parsers + Hypothesis products and spelling variants; identity / exact-size oracle; documented symbol-resolution model to predict ambiguous spellings",
+        "Exploration with an exhaustively enumerated single-term space: str() of every unit and of quantities over it must parse back to the same object (or an equal-size named unit, or, for folded-magnitude renderings, an equal quantity); texts parsing to another physical value are collisions (listed one by one in the known findings); alternative spellings of a term list parse to the identical unit.",
+        "Rendering-branch prediction (symbol / pushed prefix / symbol-less prefix / folded magnitude) is computed from the unit's structure and the prefix registry, not from the produced text.",
+        "§4 C13",
+    ),
 }
 
 NOT_YET = {}
